@@ -98,6 +98,7 @@ class Channel(AsyncIterable, Generic[ST]):
                 while buffer:
                     yield buffer.popleft()
                 if self._closed:
+                    await postpone()
                     break
                 await self._notification
         finally:
@@ -165,6 +166,7 @@ class Queue(AsyncIterable, Generic[ST]):
                 await postpone()
                 return self._buffer.popleft()
             elif self._closed:
+                await postpone()
                 raise StreamClosed(self)
             await self._notification
             try:
